@@ -20,7 +20,7 @@ class CommonScope(Kernel):
     allowed_raises = ("ValueError",)
     describe = ("region 'scope = scopes[0] ... return scope' of Map._find_common_scope, any number of scopes: the result is one of the given scopes and every given scope is a predecessor of it "
                 "(it is the innermost: everything the value needs is visible from where it is defined); ValueError only if two of the given scopes are not in a predecessor relationship. "
-                "is_predecessor_of is used under its contract (reflexive, transitive); id() is injective on live objects")
+                "is_predecessor_of is used under its contract: ancestor-or-self (C04.P.is_predecessor), hence reflexive and transitive (Lean lemma L6); id() is injective on live objects")
 
     def region(self, fnode):
         body = fnode.body
@@ -32,9 +32,10 @@ class CommonScope(Kernel):
     def setup(self, eng, bound=None):
         self.n = z3.Int("n_scopes")
         self.sc = z3.Array("scopes", I, Obj)
-        a, b, c = z3.Const("a", Obj), z3.Const("b", Obj), z3.Const("c", Obj)
-        eng.axioms += [z3.ForAll([a], pred(a, a)), z3.ForAll([a, b, c], z3.Implies(z3.And(pred(a, b), pred(b, c)), pred(a, c))), z3.ForAll([a, b], (idof(a) == idof(b)) == (a == b))]
-        eng.assumed.add("Scope.is_predecessor_of is reflexive and transitive (ancestor-or-self along `parent`); id() is injective on live objects")
+        from .. import lemmas
+        a, b = z3.Const("a", Obj), z3.Const("b", Obj)
+        eng.axioms += lemmas.ancestor_or_self_preorder(eng, pred) + [z3.ForAll([a, b], (idof(a) == idof(b)) == (a == b))]
+        eng.assumed.add("id() is injective on live objects")
         eng.contracts["id"] = SContract(lambda e, p, av, kw: SInt(idof(av[0].t)), "id()")
         for recv in ("scope", "scope2"):
             eng.contracts[f"{recv}.is_predecessor_of"] = SContract(lambda e, p, av, kw, recv=recv: SBool(pred(p.lookup(recv).t, av[0].t)), "Scope.is_predecessor_of (reflexive, transitive)")
